@@ -637,6 +637,8 @@ fn main() {
     };
     let stdout = std::io::stdout();
     let mut regs: Regs = HashMap::new();
+    let mut par_threads: usize = 0;
+    let mut par_lines: Vec<String> = Vec::new();
     for line in input.lines() {
         let line = match line {
             Ok(l) => l,
@@ -651,6 +653,53 @@ fn main() {
             let mut o = stdout.lock();
             let _ = writeln!(o, "ok reset");
             let _ = o.flush();
+            continue;
+        }
+        // `!par N` … `!endpar`: the enclosed lines are executed by N threads at once, each on its own copy of the register file,
+        // all released together; one answer per line is printed: the common answer, or `par-mismatch …` if the threads disagree
+        if let Some(n) = line.strip_prefix("!par ") {
+            par_threads = n.trim().parse().unwrap_or(0);
+            par_lines.clear();
+            continue;
+        }
+        if line == "!endpar" {
+            let n = par_threads.max(1);
+            let bar = std::sync::Arc::new(std::sync::Barrier::new(n));
+            let results: Vec<(Vec<String>, Regs)> = std::thread::scope(|sc| {
+                let hs: Vec<_> = (0..n)
+                    .map(|_| {
+                        let mut r = regs.clone();
+                        let lines = &par_lines;
+                        let bar = bar.clone();
+                        sc.spawn(move || {
+                            bar.wait();
+                            let out: Vec<String> = lines.iter().map(|l| run_line(&mut r, l)).collect();
+                            (out, r)
+                        })
+                    })
+                    .collect();
+                hs.into_iter().map(|h| h.join().unwrap_or_else(|_| (vec![], HashMap::new()))).collect()
+            });
+            let mut o = stdout.lock();
+            for i in 0..par_lines.len() {
+                let first = results[0].0.get(i).cloned().unwrap_or_else(|| "died".into());
+                if results.iter().all(|(v, _)| v.get(i) == Some(&first)) {
+                    let _ = writeln!(o, "{}", first);
+                } else {
+                    let all: Vec<String> = results.iter().enumerate().map(|(t, (v, _))| format!("t{}={}", t, v.get(i).map(|s| s.chars().take(120).collect::<String>()).unwrap_or_default())).collect();
+                    let _ = writeln!(o, "par-mismatch {}", all.join(" | "));
+                }
+            }
+            let _ = o.flush();
+            if let Some((_, r)) = results.into_iter().next() {
+                regs = r;
+            }
+            par_threads = 0;
+            par_lines.clear();
+            continue;
+        }
+        if par_threads > 0 {
+            par_lines.push(line.to_string());
             continue;
         }
         let ans = run_line(&mut regs, line);
